@@ -278,18 +278,40 @@ func judgeC11Raw(c c11Case) (string, string) {
 			os.RemoveAll(dst)
 			os.Mkdir(dst, 0755)
 		}
-		if k, m := c11Transfer(c, view, dst, pre, listedPaths); k != "" {
+		if k, m := c11Transfer(c, view, dst, pre, listedPaths, false); k != "" {
 			if round > 1 {
 				return "reuse-" + k, fmt.Sprintf("transfer #%d of the same view value: %s", round, m)
 			}
 			return k, m
 		}
 	}
+	// history: the destination already holds the UNFILTERED tree (an earlier transfer, before the filter was configured):
+	// hard-link groups are there, linked to a first name the filter now hides
+	hasHL := false
+	for _, n := range c.Tree {
+		hasHL = hasHL || (n.HL > 0 && n.Kind == fsmodel.File)
+	}
+	if hasHL && !c.Reset && (c.Under == "disk" || c.Under == "mem") && len(c.Include)+len(c.Exclude) > 0 && len(c.Follow) == 0 {
+		plain := c
+		plain.Include, plain.Exclude, plain.Follow, plain.FollowEmpty = nil, nil, nil, false
+		pv, _, err := buildView(plain, srcDir)
+		if err != nil {
+			return "view-failed", err.Error()
+		}
+		os.RemoveAll(dst)
+		os.Mkdir(dst, 0755)
+		if r0 := xfer.Run(pv, dst, fsutil.ReceiveOpt{}, nil); !r0.OK() {
+			return "transfer-failed", fmt.Sprintf("unfiltered transfer: send=%v recv=%v", r0.SendErr, r0.RecvErr)
+		}
+		if k, m := c11Transfer(c, view, dst, pre, listedPaths, true); k != "" {
+			return "after-unfiltered-" + k, "into a destination that holds the unfiltered tree: " + m
+		}
+	}
 	return "", ""
 }
 
 // c11Transfer sends the view into dst and judges the stream and the destination.
-func c11Transfer(c c11Case, view fsutil.FS, dst, pre string, listed []string) (string, string) {
+func c11Transfer(c c11Case, view fsutil.FS, dst, pre string, listed []string, dirty bool) (string, string) {
 	res := xfer.Run(view, dst, fsutil.ReceiveOpt{}, nil)
 	if res.TimedOut {
 		return "timeout", "transfer timed out"
@@ -331,7 +353,7 @@ func c11Transfer(c c11Case, view fsutil.FS, dst, pre string, listed []string) (s
 		return "infra", err.Error()
 	}
 	mask := fsmodel.Mask{NoXattrOf: func(n fsmodel.Node) bool { return n.Kind != fsmodel.File && n.Kind != fsmodel.Dir },
-		DirMtime: func(p string) bool { return p == "s" }}
+		DirMtime: func(p string) bool { return p == "s" || dirty }} // (times of directories the destination already had: C01)
 	for _, n := range c.Tree {
 		if n.HL > 0 && n.Kind != fsmodel.File {
 			// link members that are special files are announced as links but created as separate
